@@ -27,7 +27,7 @@ RULE = ('cases = (table, key, reverse) for sort, (tables, key, reverse, header, 
 ASSUMPTIONS = ['CPython list.sort is stable (also with reverse=True)',
                'the reference ordering model in petlmon/util.py follows the text of C04',
                'pickle round-trips the generated cell values']
-REQUIRED = ['chunked:buffersize==nrows', 'chunked:buffersize==nrows-1', 'inmemory:buffersize==nrows+1', 'chunked:buffersize==1',
+REQUIRED = ['long-table-sorts', 'chunked:more-than-16-chunks+ties', 'chunked:buffersize==nrows', 'chunked:buffersize==nrows-1', 'inmemory:buffersize==nrows+1', 'chunked:buffersize==1',
             'chunked:reverse+ties-across-chunks', 'pass2:file-cache', 'pass2:mem-cache', 'key-cell-missing',
             'mergesort:tie-across-tables', 'mergesort:presorted', 'config.sort_buffersize-used']
 EXHAUSTIVE = {'quick': False, 'thorough': False}
@@ -92,6 +92,15 @@ def cases(ctx):
         t = gen.table(rng, nrows=rng.randint(0, 8), nfields=nf, pool=pool, ragged=0.25 if rng.random() < 0.4 else 0.0, ids=True)
         key = gen.keyspec(rng, t[0][:-1])
         yield {'kind': 'sort', 'table': t, 'key': key, 'reverse': rng.random() < 0.5}
+    # long tables with few distinct keys: dozens of chunk files, ties spanning early and late chunks (a merge that
+    # cascades, batches or re-orders its runs shows only when there are many of them)
+    rngl = ctx.rng('large')
+    for i in range(ctx.pick(60, 900)):
+        n = rngl.choice([17, 24, 33, 40, 65, 120])
+        kp = rngl.sample([None, 1, 2, 3.5, 'a', 'b', (1, 2), True], rngl.randint(2, 4))
+        t = [['k', 'j', 'id']] + [[rngl.choice(kp), rngl.choice(kp), 'r%d' % r] for r in range(n)]
+        yield {'kind': 'sort', 'table': t, 'key': rngl.choice(['k', ('k', 'j'), 'j', None, 0]), 'reverse': rngl.random() < 0.5,
+               'buffersizes': sorted(set([1, 2, 3, rngl.randint(4, 9), rngl.randint(10, 40)]))}
     for i in range(ctx.pick(1500, 30000)):
         nt = rng.randint(2, 3)
         same = rng.random() < 0.5
@@ -148,7 +157,9 @@ def _judge_sort(case, ctx):
     ctx.op('sort')
     out = []
     sub = os.path.join(_audit.dir, 'sub')
-    for bs in list(range(1, n + 3)) + [None, 'config']:
+    if case.get('buffersizes'):
+        ctx.seen('long-table-sorts')
+    for bs in (case.get('buffersizes') or list(range(1, n + 3))) + [None, 'config']:
         for cache in (True, False):
             for tempdir in ((None, sub) if bs in (1, n) else (None,)):
                 src = copy.deepcopy(table)
@@ -195,6 +206,8 @@ def _judge_sort(case, ctx):
                         ctx.seen('%s:buffersize==%s' % (mode, rel))
                     if eff == 1 and n > 1:
                         ctx.seen('%s:buffersize==1' % mode)
+                    if nchunks > 16 and ties:
+                        ctx.seen('chunked:more-than-16-chunks+ties')
                     if nchunks and reverse and ties and eff < n:
                         ctx.seen('chunked:reverse+ties-across-chunks')
                     if nchunks and ties and not reverse and eff < n:
